@@ -55,6 +55,10 @@ def driver_universe(ex, ck, aborts=False, budget=None):
         for tc in small_layouts(n_small, wrap=wrap):
             for cfg in (cfgs if len(tc[1]) == n_small and wrap == wraps[0] else cfgs[:1]):
                 explore("minimize", cfg, tc, stream="minimize")
+    # 1b. variable-length atoms: different deletions give byte-identical files with different atom boundaries
+    for tc in small_layouts(n_small + 1, alphabet=(b"a", b"b", b"ab"), with_nonred=False):
+        if len(tc[1]) >= 3:
+            explore("minimize", {}, tc, stream="minimize-varlen", max_runs=60 if quick else 400)
     # 2. the other strategies drive the model DRIVER through their recorded proposals
     others = ["minimize-around", "minimize-balanced", "minimize-collapse-brace",
               "replace-properties-by-globals", "replace-arguments-by-globals"]
@@ -79,6 +83,23 @@ def driver_universe(ex, ck, aborts=False, budget=None):
         for strategy in others[3:]:
             explore(strategy, {}, lines_tc(data), stream=strategy, replay=True,
                     max_runs=60 if quick else 500, cap=300)
+    # 2b. deterministic "accept the original and exactly one other file" tests, for every file seen in a
+    #     reject-everything run (size-preserving candidates of the move option can restore the original)
+    fam = [("minimize-balanced", {"move": True}, [b"{\n", b"a\n", b"}\n", b"b\n", b"b\n"]),
+           ("minimize-balanced", {"move": True}, [b"(\n", b"x\n", b")\n", b"y\n"]),
+           ("minimize-collapse-brace", {}, [b"{\n", b"\n", b"}\n"]),
+           ("minimize", {}, [b"plumless\n", b"buckeroo\n", b"x\n"])]
+    for strategy, cfg, parts in fam:
+        tc = (b"", parts, [True] * len(parts), b"")
+        orig = content(tc)
+        base = ex.one(strategy, cfg, tc, orig, "Y", stream="family-base", replay=strategy != "minimize")
+        seen = []
+        for _, d, _ in base.seen[1:]:
+            if d not in seen:
+                seen.append(d)
+        for c in seen[: (12 if quick else 60)]:
+            ex.one(strategy, cfg, tc, orig, (lambda k, data, c=c: "Y" if data in (orig, c) else "N"),
+                   stream="family-one-accept", replay=strategy != "minimize")
     # 3. check-only
     for tc in small_layouts(2):
         for v in ("Y", "N"):
